@@ -8,6 +8,9 @@ from pvm.build import VERIF
 
 ALL = [f"C{i:02d}" for i in range(1, 21)]
 NOT_APPLICABLE = {}   # id -> reason (kept current by hand)
+# checks that are finished (silent on the unchanged tree on several seeds,
+# self-tested with mutants); everything else is listed as not claimed
+READY = ["C14", "C20"]
 
 
 def main():
@@ -15,7 +18,8 @@ def main():
     na = []
     for pid in ALL:
         path = os.path.join(VERIF, "pvm", "checks", pid.lower() + ".py")
-        if pid in NOT_APPLICABLE or not os.path.exists(path):
+        if pid in NOT_APPLICABLE or pid not in READY or \
+                not os.path.exists(path):
             na.append({"property_id": pid, "reason": NOT_APPLICABLE.get(
                 pid, "check not built yet (work in progress); no claim made")})
             continue
